@@ -160,7 +160,45 @@ def h_json(nr, nc, axis):
     coherent('json-subset:coherent', r, **sig)
 
 
-HARNESSES = {'hdf5': h_hdf5, 'hdf5_unknown': h_hdf5_unknown, 'json': h_json}
+def h_cli_hdf5(nr, nc, axis):
+    """`biom subset-table -i <hdf5>`: _subset_table with biom_open stubbed to hand over the written store"""
+    import contextlib
+    import sx.env as env
+    TS = env.module('biom.cli.table_subsetter')
+    b = B()
+    t, a = make_table(nr, nc, md='both', zeros=0, type_='OTU table', unsorted=False)
+    store = new_store()
+    t.to_hdf5(store, 'verif-c14', creation_date=DATE)
+
+    @contextlib.contextmanager
+    def fake_open(fp, permission='r'):
+        yield store
+    TS.biom_open = fake_open
+    n = len(a.ids(axis))
+    subs = _nonempty_subsets(n)
+    keep = list(subs[choice(len(subs), 'subset')])
+    ids = [a.ids(axis)[k] for k in keep]
+    unknown = flag('plus-unknown-id')
+    r, e = call(lambda: TS._subset_table('table.biom', None, axis, ids + (['nope'] if unknown else [])))
+    sig = dict(axis=axis)
+    if unknown:
+        if e is None:
+            fail('cli-hdf5:unknown-id-accepted', str(ids), **sig)
+        return
+    if e is not None:
+        fail('cli-hdf5:raised', f"{type(e).__name__}: {e}"[:160], **sig)
+        return
+    table, fmt = r
+    if fmt != 'hdf5':
+        fail('cli-hdf5:format', fmt, **sig)
+    same_table('cli-hdf5', observe(table), _expected(a, axis, keep, drop_empty=True), type_=True, **sig)
+    for bad in (('table.biom', '{}', axis), (None, None, axis), ('table.biom', None, 'nonsense')):
+        _, e = call(lambda: TS._subset_table(bad[0], bad[1], bad[2], ids))
+        if not isinstance(e, ValueError):
+            fail('cli-hdf5:bad-arguments-accepted', str(bad), **sig)
+
+
+HARNESSES = {'cli_hdf5': h_cli_hdf5, 'hdf5': h_hdf5, 'hdf5_unknown': h_hdf5_unknown, 'json': h_json}
 
 
 def jobs(tier):
@@ -173,6 +211,7 @@ def jobs(tier):
                 out.append(('hdf5', (nr, nc, ax, wm)))
                 out.append(('hdf5_unknown', (nr, nc, ax, wm)))
             out.append(('json', (nr, nc, ax)))
+            out.append(('cli_hdf5', (nr, nc, ax)))
     return out
 
 
